@@ -184,7 +184,15 @@ func (s *Sched) register(t *Thread) {
 func park(t *Thread, site string) {
 	t.site = site
 	t.state = stAtGate
+	// The baton must not carry happens-before: a channel operation synchronises both ways
+	// (on an unbuffered channel the receiver's past happens before the sender's future),
+	// which would publish this thread's history to the scheduler and through it to every
+	// thread resumed later, hiding all but back-to-back races from the race detector.
+	// RaceDisable makes the detector ignore the synchronisation of this one operation
+	// (memory accesses are still tracked); it is a no-op in builds without -race.
+	raceOff()
 	<-t.gate
+	raceOn()
 }
 
 // PointObj is Point with the identity of the object the operation touches.
@@ -738,7 +746,9 @@ func (s *Sched) Run() {
 		s.cur = x
 		s.fold(x, x.site, x.obj)
 		x.state = stRunning
+		raceOff() // see park
 		x.gate <- struct{}{}
+		raceOn()
 	}
 }
 
